@@ -783,3 +783,102 @@ def value_never_leaves(ctx, bodies, is_state):
             break
         getters = new_getters
     return True, None
+
+
+# ------------------------------------------------------------------ records / next_ix / index move in lock-step
+
+def length_lockstep(ctx, rule):
+    """Every public Store method that changes one of {records, next_ix, index} changes all three by the same abstract
+    amount on every path: `+1` (push / += 1 / TrigramIndex::add) or `reset` (clear or fresh vector / 0 / fresh index).
+    This is the value side of the consistency group (R10.b looks only at WHICH fields are written): the debug assertion
+    `next_ix == records.len()` and the posting-position lemma of C19 rest on it, and `clear` must really empty the store."""
+    store = _store_adt(ctx)
+    if not ctx.require(rule, "Store", store):
+        return
+    sid = store["id"]
+    n = 0
+    for b in ctx.facts.fns():
+        if not (b.kind == "method" and b.arg_count >= 1 and U.adt_of(ctx.facts, b.local_ty(1)) == sid):
+            continue
+        sy = ctx.sym(b)
+        cfg = ctx.cfg(b)
+        eff = {"records": [], "next_ix": [], "index": []}
+
+        def fld(e):
+            p = U.field_path(e)
+            return p[2][0] if p and p[0] == "arg" and p[1] == 1 and p[2] else None
+
+        def through_cell(e):
+            # RefCell::borrow_mut(&self.index) / get_mut / deref chains -> the field
+            e = S.strip_refs(e)
+            while e[0] == "call" and e[1].endswith(("RefCell::borrow_mut", "RefCell::get_mut", "DerefMut::deref_mut", "Deref::deref")) and e[2]:
+                e = S.strip_refs(e[2][0])
+            return fld(e)
+        for bi, si, st in b.iter_stmts():
+            if st["k"] != "assign" or not st["place"]["p"] or b.blocks[bi]["cleanup"]:
+                continue
+            d = sy.dest(st["place"])
+            f_ = fld(d) if U.field_path(d) and len(U.field_path(d)[2]) == 1 else None
+            if f_ is None:
+                tc = through_cell(d)
+                f_ = tc if tc == "index" and S.strip_refs(d)[0] in ("call", "deref") else None
+            if f_ not in eff:
+                continue
+            v = S.strip_refs(sy.rvalue(st["rv"]))
+            kind = "unknown"
+            if f_ == "next_ix":
+                if U.is_const(v) and S.const_value(v) == 0:
+                    kind = "reset"
+                elif v[0] == "binop" and v[1] == "Add" and fld(v[2]) == "next_ix" and U.is_const(v[3]) and S.const_value(v[3]) == 1:
+                    kind = "+1"
+            elif f_ == "records":
+                if v[0] == "call" and v[1].endswith(("Vec::new", "Vec::with_capacity", "Default::default")):
+                    kind = "reset"
+            elif f_ == "index":
+                inner = v
+                while inner[0] == "call" and inner[1].endswith(("RefCell::new", "Cell::new")) and inner[2]:
+                    inner = S.strip_refs(inner[2][0])
+                if inner[0] == "call" and inner[1].endswith(("TrigramIndex::new", "Default::default")):
+                    kind = "reset"
+            eff[f_].append((bi, kind))
+        for bi, t in b.calls():
+            if not t["args"]:
+                continue
+            m = (t.get("cn") or "").rsplit("::", 1)[-1]
+            r = sy.operand(t["args"][0])
+            if fld(r) == "records" and (t.get("cn") or "").startswith(("std::vec::Vec", "alloc::vec::Vec")):
+                if m == "push":
+                    eff["records"].append((bi, "+1"))
+                elif m == "clear":
+                    eff["records"].append((bi, "reset"))
+                elif m in ("pop", "remove", "insert", "truncate", "retain", "drain", "extend", "append", "swap_remove", "resize", "dedup"):
+                    eff["records"].append((bi, "unknown"))
+            if (t.get("cn") or "").endswith("TrigramIndex::add") and through_cell(r) == "index":
+                eff["index"].append((bi, "+1"))
+            elif (t.get("cn") or "").startswith("store::trigram_index::TrigramIndex::") and through_cell(r) == "index" and \
+                    m not in ("prepare", "collect_grams", "len", "dict") and not (t.get("cn") or "").endswith("TrigramIndex::add"):
+                tb = [x for x in ctx.facts.fns() if x.cn == t.get("cn")]
+                if tb and tb[0].arg_count >= 1 and tb[0].local_ty(1).startswith("&mut"):
+                    eff["index"].append((bi, "unknown"))
+        if not any(eff.values()):
+            continue
+        n += 1
+        key = "lockstep:%s" % b.id
+        summary = {}
+        for f_, evs in eff.items():
+            if not evs:
+                summary[f_] = "same"
+            elif len(evs) == 1 and cfg.every_path_passes(0, [evs[0][0]]) and not cfg.in_loop(evs[0][0]):
+                summary[f_] = evs[0][1]
+            else:
+                summary[f_] = "unknown"
+        vals = set(summary.values())
+        if len(vals) == 1 and "unknown" not in vals:
+            ctx.ok(rule, key, b.where(), "%s changes records, next_ix and the index alike (%s) on every path" % (b.id, list(vals)[0]),
+                   nontrivial=True, kind="S")
+        else:
+            ctx.fail(rule, key, b.where(), "%s changes the record vector, the position counter and the index differently: %s" %
+                     (b.id, ", ".join("%s: %s" % kv for kv in sorted(summary.items()))),
+                     {"witness": "add a record, call this method, add another record, search: positions handed out by next_ix no longer "
+                                 "index `records` (debug assertion `Invalid store.next_ix` / wrong or missing hits)"}, kind="S")
+    ctx.floor(rule, "lockstep_methods", n, 2)
